@@ -58,6 +58,14 @@ def handle : Protocol.Handler := fun j => do
     let items := combine (cs.zip hs)
     let off ← (fieldNat j "offset" <|> pure 0)
     return encResult (send items r (items.length + 1) off)
+  | "send_log" =>
+    -- recipe positions of the handlers the bus invokes, in invocation order (ghost-instrumented `send`)
+    let cs ← (← fieldArr j "checkers").mapM decChecker
+    let hs ← (← fieldArr j "handlers").mapM decHandler
+    let r ← decReq (← field j "req")
+    let items := combine (labelled (cs.zip hs))
+    let res := sendLog Prod.fst items r (items.length + 1) 0
+    return Json.mkObj [("result", encResult res.1), ("log", listJ (res.2.map fun h => natJ h.2))]
   | "spec_send" =>
     let cs ← (← fieldArr j "checkers").mapM decChecker
     let hs ← (← fieldArr j "handlers").mapM decHandler
